@@ -35,6 +35,7 @@ void vf_init (const struct vf_config *cfg);
 int vf_spawn (void (*fn) (void *), void *arg);
 int vf_run (void);                 /* returns enum vf_outcome */
 int vf_self (void);
+int vf_sem_value (nsync_semaphore *s); /* current count of a semaphore (abstract or futex build) */
 void vf_log_alias (int tid); /* > 0: log the current fiber's events under this thread id until reset with 0 */
 int64_t vf_now (void);             /* virtual ns */
 uint64_t vf_rand (void);           /* environment PRNG */
